@@ -325,7 +325,7 @@ theorem pubOverride_post (w : W) (h : Inv w.s) (hc : w.s.closed = false) (hk : w
   split
   · exact ⟨h, ‹_›, hc, rfl⟩
   · rename_i q hq
-    refine ⟨inv_execRemove _ h hc q hq, ?_, ?_, ?_⟩ <;> (rw [executeRemovePublisher_s]; simp [hc])
+    refine ⟨inv_execRemove _ h hc q hq, ?_, ?_, ?_⟩ <;> simp [executeRemovePublisher_s, hc]
   · rename_i x hx hne
     exfalso
     rcases h.kPub hk with h0 | ⟨q, hq⟩
@@ -441,6 +441,7 @@ theorem inv_fireTimer (t : Timer) (w : W) (h : Inv w.s) (hc : w.s.closed = false
 
 theorem inv_doClose (w : W) (h : Inv w.s) (hc : w.s.closed = false) : Inv (doClose w).s := by
   have hv := odStatic_iff w.s.conf
+  have hq : w.s.conf.odPub = w.s.conf.runOnDemand := rfl
   have hval := h.valid
   unfold Conf.valid at hval
   simp only [doClose, upd_s]
